@@ -498,6 +498,11 @@ func (fr *FnRun) oblige(st *State, kind, detail string, goal *Term, clause *Clau
 	fr.nobl++
 	o := &Obligation{Name: fr.oblName(kind, detail), Func: fr.key, Kind: kind, Clause: srcText, Goal: goal, Case: fr.caseName}
 	o.Props = fr.props
+	if kind == "guard" {
+		// lock discipline is a fact about the access itself: it counts for every property whose
+		// function list names this function, whatever the contract's props() say
+		o.Props = nil
+	}
 	if clause != nil {
 		if len(clause.Props) > 0 {
 			o.Props = clause.Props
